@@ -307,11 +307,17 @@ def body_c14(tier, seed, rep, only_prop=False, scale=1):
             rep.ties += 1
             continue
         if f["prop"] != "ok":
-            rep.prop_fail.append(("C14 predicate false on the implementation's nice domain: " + ans, payload))
+            if meta["kind"] == "lnice" and f.get("noround") == "ok" and f.get("overshoot") == "1" and f["same"] == "ok" and "F4" in KNOWN14:
+                # known finding F4: float overshoot of one second-pass step; only the roundness clause fails
+                rep.known_seen["F4"] = KNOWN14["F4"]["message"]
+                rep.count("F4-float-overshoot")
+            else:
+                rep.prop_fail.append(("C14 predicate false on the implementation's nice domain: " + ans, payload))
         elif f["same"] != "ok" and not only_prop:
             rep.corr_fail.append(("nice differs from the model: " + ans, payload))
 
 
+KNOWN14 = {k["id"]: k for k in common.load_known()["known"] if k["property"] == "C14"}
 BODIES = {"C12": body_c12, "C13": body_c13, "C14": body_c14}
 
 
@@ -377,5 +383,9 @@ def replay_case(pid, replay):
     ans = drive([line])[0]
     print("replay:", ans)
     bad = "fail" in ans.replace("model=fail", "")
+    f = fields(ans)
+    if bad and k == "lnice" and f.get("prop") == "fail" and f.get("noround") == "ok" and f.get("overshoot") == "1" and f.get("same") == "ok" and "F4" in KNOWN14:
+        print("KNOWN-FINDING: property=C14 " + KNOWN14["F4"]["message"])
+        return 0
     print("VIOLATION property=%s replay=%s" % (pid, replay) if bad else "replay: holds now")
     return 1 if bad else 0
